@@ -1,3 +1,4 @@
+import re
 from collections.abc import Iterable
 
 from formulaic.utils.code import format_expr, sanitize_variable_names
@@ -33,5 +34,11 @@ def sanitize_python_code(expr: str) -> str:
     )
     while aliases:
         alias, orig = aliases.popitem()
-        expr = expr.replace(alias, f"`{orig}`")
+        # Only replace whole identifiers (an alias may be a substring of another
+        # name in the expression, e.g. `x` in `exp`).
+        expr = re.sub(
+            rf"(?<!\w){re.escape(alias)}(?!\w)",
+            lambda _, orig=orig: f"`{orig}`",
+            expr,
+        )
     return expr
